@@ -11,7 +11,8 @@ _OBLS = []
 
 
 def _solve(args):
-  idx, timeout_ms, seed = args
+  idx, timeout_ms, seed = args[:3]
+  single = len(args) > 3 and args[3]
   o = _OBLS[idx]
   t0 = time.time()
   r = z3.unknown
@@ -21,7 +22,7 @@ def _solve(args):
   # with different options/seeds are made; any `unsat` is a proof.
   attempts = ({}, {'smt.mbqi': False}, {'smt.random_seed': 1 + seed}, {'smt.mbqi': False, 'smt.random_seed': 2 + seed},
               {'smt.random_seed': 3 + seed, 'smt.qi.eager_threshold': 100.0})
-  for opts in attempts:
+  for opts in (attempts[:1] if single else attempts):
     s = z3.Solver()
     s.set('timeout', timeout_ms)
     for k, v in opts.items():
@@ -115,7 +116,7 @@ def _second(args):
 
 
 def discharge(obligations, timeout_s=60, jobs=16, seed=0, use_cvc5=True,
-              first_ms=2000, phase2=True):
+              first_ms=2000, phase2=True, single=False):
   """Sets .status/.backend/.seconds/.model on each obligation.
 
   Phase 1: in-process z3, sequential, short budget (VCs normally take ms).
@@ -126,7 +127,7 @@ def discharge(obligations, timeout_s=60, jobs=16, seed=0, use_cvc5=True,
   t0 = time.time()
   pending = []
   for i in range(len(obligations)):
-    idx, status, dt, info, smt2 = _solve((i, first_ms, seed))
+    idx, status, dt, info, smt2 = _solve((i, first_ms, seed, single))
     o = obligations[i]
     o.status, o.seconds, o.backend = status, dt, 'z3-%s' % z3.get_version_string()
     o.model = info if status == 'sat' else None
